@@ -22,7 +22,7 @@ let () =
               | nr :: rest ->
                 let rec rs k l = if k = 0 then [] else (match l with
                   | st :: j :: sv :: mine :: bad :: r ->
-                    { o_state = nat_of_int st; o_joined = (j <> 0); o_saves = n_of_int sv; o_mine = (if mine < 0 then None else Some (n_of_int mine)); o_bad = n_of_int bad } :: rs (k - 1) r
+                    { o_state = nat_of_int st; o_joined = (j <> 0); o_saves = n_of_int sv; o_mine = (if mine < 0 then None else Some (n_of_int mine)); o_bad = n_of_int bad; o_gated = (mine = -2) } :: rs (k - 1) r
                   | _ -> failwith "res") in
                 let o = { b_x = n_of_int x; b_y = n_of_int y; b_x_end = n_of_int xe; b_fault_limit = n_of_int limit; b_windows = pairs ws; b_res = rs nr rest } in
                 Printf.printf "%s M - | J %s\n" id (if judge o then "1" else "0")
